@@ -94,7 +94,7 @@ type tmpl struct {
 	onDone  func(c *call, res []nfsv4.NfsResop4)    // verify the reply, update the model
 	parkOK  []string                                // park kinds that make sense for this template
 	stateOp bool                                    // successful execution changes open or lock state
-	expect  []nfsv4.Nfsstat4                        // expected status per operation (filled by atExec/predict)
+	expect  []sts                                   // acceptable statuses per operation (filled by atExec/predict)
 	data    map[string]any
 }
 
@@ -142,6 +142,8 @@ type world struct {
 	stepNo int
 	labels map[string]int
 	excl   map[string]int
+
+	grantedOwners map[string]bool
 	notes  []string
 }
 
@@ -185,6 +187,8 @@ func newWorld(rt *rapid.T, p *profile) *world {
 		anonHold:     map[*countLeaf]*[2]int{},
 		labels:       map[string]int{},
 		excl:         map[string]int{},
+
+		grantedOwners: map[string]bool{},
 	}
 	seed := rapid.Uint64Range(0, 1<<20).Draw(rt, "rngSeed")
 	w.nfsAlloc = virtual.NewNFSHandleAllocator(&detRNG{ctr: seed * 1000003})
@@ -369,7 +373,7 @@ func (w *world) collect() {
 		if c.collected || !w.isDone(c) {
 			continue
 		}
-		if c.class == "dup" && !c.orig.collected {
+		if c.mode == "wait" && !c.orig.collected {
 			// Answered before the original completed.
 			w.checkEarlyDup(c)
 			continue
